@@ -36,8 +36,8 @@ CHECKS = {
     "C03": ("Theorems for every order k >= 1, every 0/1 mask and thresholds 1..4: connect_coding_graph returns the vertex-induced "
             "sub-graph on the LARGEST closed subset of the mask (greatest fixed point; for t = 1 incl. reachability of a branching "
             "vertex, proved through the cascade invariant), the vertex description denotes exactly the vertices with arcs, and "
-            "ValueError is raised exactly when every closed subset is empty; monotonicity and uniqueness follow.  The equality "
-            "with the latter-map trimming for t >= 2 is checked by correspondence + oracle, not proved.  Tied to dsw by the "
+            "ValueError is raised exactly when every closed subset is empty; monotonicity and uniqueness follow; the latter-map "
+            "trimming (remove_useless) computes the largest min-degree-t subset and gives the same graph for t >= 2.  Tied to dsw by the "
             "correspondence check incl. (thorough) all 65536 order-2 masks x 4 thresholds.",
             "Coq proof (greatest fixed point of a monotone deflationary operator; cascade invariant) + extraction-based correspondence", "5 C03"),
     "C04": ("Theorems: every graph returned by graph generation is well formed from every retained vertex; encoding from there is "
